@@ -51,3 +51,10 @@ Proof.
   induction 1 as [|f r Hf _ IH]; intros acc Ha; cbn [struct_offsets_from]; constructor; [exact Ha|].
   apply IH. cbn [binary_cats]. split; [cbn [length]; lia|]. repeat split; auto.
 Qed.
+
+(* byte-aligned types have the single residue 0 modulo 8: one multiset per repetition count *)
+Lemma aligned8_mod8 t : wft t = true -> align t = 8 -> omod (bls t) 8 = [0].
+Proof.
+  intros W A. pose proof (is_aligned_spec (bls t) 8 (proj1 (wf_bls t W)) ltac:(discriminate)) as [_ H].
+  unfold is_aligned in H. apply list_eqb_eq. apply H. intros x D. rewrite <- A. exact (align_divides t W x D).
+Qed.
